@@ -518,6 +518,7 @@ class Flattener:
         try:
             new = _clone(node)
             new.body = self._flatten_body(fn, new.body, _all_names(node))
+            _scalarize_results(new)
             ast.fix_missing_locations(new)
         finally:
             self._active.pop()
@@ -527,6 +528,65 @@ class Flattener:
         new._parent = getattr(node, "_parent", None)
         self._done[fn.qual] = new
         return new
+
+
+def _scalarize_results(fnode):
+    """Result variables of inlined helpers that only ever hold n-tuples written as such (`inl_ret = (a, b)`) and
+    are only ever unpacked (`x, y = inl_ret`) are split into one variable per position:
+    `inl_ret_0 = a; inl_ret_1 = b` ... `x = inl_ret_0; y = inl_ret_1`."""
+    stores, loads, bad = {}, {}, set()
+    parent = {}
+    for p in ast.walk(fnode):
+        for c in ast.iter_child_nodes(p):
+            parent[id(c)] = p
+    for n in ast.walk(fnode):
+        if isinstance(n, ast.Name) and n.id.startswith("inl_ret__i"):
+            p = parent.get(id(n))
+            if isinstance(n.ctx, ast.Store):
+                if isinstance(p, ast.Assign) and len(p.targets) == 1 and p.targets[0] is n and isinstance(p.value, ast.Tuple) and not any(isinstance(e, ast.Starred) for e in p.value.elts):
+                    stores.setdefault(n.id, []).append(p)
+                else:
+                    bad.add(n.id)
+            elif isinstance(n.ctx, ast.Load):
+                if isinstance(p, ast.Assign) and p.value is n and len(p.targets) == 1 and isinstance(p.targets[0], (ast.Tuple, ast.List)) \
+                        and all(isinstance(e, (ast.Name, ast.Tuple, ast.List)) for e in p.targets[0].elts):
+                    loads.setdefault(n.id, []).append(p)
+                else:
+                    bad.add(n.id)
+            else:
+                bad.add(n.id)
+    todo = {}
+    for name, sts in stores.items():
+        if name in bad or name not in loads:
+            continue
+        arity = {len(st.value.elts) for st in sts} | {len(st.targets[0].elts) for st in loads[name]}
+        if len(arity) == 1:
+            todo[name] = arity.pop()
+    if not todo:
+        return
+
+    def rewrite(body):
+        out = []
+        for st in body:
+            for fld in ("body", "orelse", "finalbody"):
+                sub = getattr(st, fld, None)
+                if isinstance(sub, list) and sub and isinstance(sub[0], ast.stmt):
+                    setattr(st, fld, rewrite(sub))
+            for h in getattr(st, "handlers", []) or []:
+                h.body = rewrite(h.body)
+            if isinstance(st, ast.Assign) and len(st.targets) == 1 and isinstance(st.targets[0], ast.Name) and st.targets[0].id in todo and isinstance(st.value, ast.Tuple):
+                nm = st.targets[0].id
+                for i, e in enumerate(st.value.elts):
+                    out.append(ast.copy_location(ast.Assign(targets=[ast.copy_location(ast.Name(id="%s_%d" % (nm, i), ctx=ast.Store()), st)], value=e), st))
+            elif isinstance(st, ast.Assign) and isinstance(st.value, ast.Name) and st.value.id in todo and isinstance(st.targets[0], (ast.Tuple, ast.List)):
+                nm = st.value.id
+                for i, t in enumerate(st.targets[0].elts):
+                    out.append(ast.copy_location(ast.Assign(targets=[t], value=ast.copy_location(ast.Name(id="%s_%d" % (nm, i), ctx=ast.Load()), st)), st))
+            else:
+                out.append(st)
+        return out
+
+    fnode.body = rewrite(fnode.body)
 
 
 def _replace(st, old, new):
